@@ -161,6 +161,42 @@ def judge_sem(casefiles, timeout=1800):
     return verdicts, stats
 
 
+def judge_events(module, cfg, events_doc_list, workdir_, key="events", timeout=1800):
+    """Run a Trace_* judge over several event documents in parallel (one TLC process each).
+    Each document is a dict holding a list under `key` whose items carry `id` and `kinds`."""
+    verdicts = {}
+    stats = {"states": 0, "distinct": 0, "tlc_runs": 0, "tlc_wall": 0.0}
+    paths = []
+    for i, doc in enumerate(events_doc_list):
+        pth = os.path.join(workdir_, "%s-%d.json" % (module.split(".")[0], i))
+        with open(pth, "w") as f:
+            json.dump(doc, f)
+        paths.append((i, pth, len(doc[key])))
+
+    def one(x):
+        i, pth, n = x
+        meta = os.path.join(workdir_, "meta-%s-%d" % (module.split(".")[0], i))
+        return pth, n, run_tlc(module, cfg, meta, env={"CASEFILE": pth}, timeout=timeout)
+
+    with concurrent.futures.ThreadPoolExecutor(max_workers=NPROC) as ex:
+        for pth, n, (out, rc, wall) in ex.map(one, paths):
+            stats["tlc_runs"] += 1
+            stats["tlc_wall"] += wall
+            g, d = tlc_counts(out)
+            stats["states"] += g
+            stats["distinct"] += d
+            found = VERDICT_RE.findall(out)
+            if len(found) != n:
+                raise ToolError("TLC did not judge every event of %s (%d of %d):\n%s" % (pth, len(found), n, out[-3000:]))
+            for cid, vs in found:
+                verdicts[cid] = [x.strip().strip('"') for x in vs.split(",")] if vs.strip() else []
+    return verdicts, stats
+
+
+def chunks(lst, n):
+    return [lst[i:i + n] for i in range(0, len(lst), n)]
+
+
 # ----------------------------------------------------------------------------- reporting
 def load_known():
     p = os.path.join(VERIF, "known_findings.json")
